@@ -19,8 +19,15 @@ VERIF = os.path.dirname(os.path.abspath(__file__))
 
 def sh(cmd, cwd=None, env=None, timeout=None):
     try:
-        p = subprocess.run(cmd, cwd=cwd, env=env, stdout=subprocess.PIPE, stderr=subprocess.STDOUT, text=True, timeout=timeout)
-        return p.returncode, p.stdout
+        # own process group, killed as a whole on timeout (a hanging test binary would otherwise spin on)
+        p = subprocess.Popen(cmd, cwd=cwd, env=env, stdout=subprocess.PIPE, stderr=subprocess.STDOUT, text=True, start_new_session=True)
+        try:
+            out, _ = p.communicate(timeout=timeout)
+        except subprocess.TimeoutExpired:
+            os.killpg(p.pid, 9)
+            p.communicate()
+            raise
+        return p.returncode, out
     except subprocess.TimeoutExpired:
         return 124, ""
 
